@@ -17,7 +17,8 @@ CLAIMS = {
              'solvers are reached only through the gate. These are necessary conditions of "certified solution or raise", quantified over all inputs because they '
              'are path properties of the source; convergence, conditioning and independence of the initial guess are NOT decided. Also decided: sub-matrix/preconditioner caches are keyed on everything they depend on, Topology.project never overwrites prescribed constraint values, and in every iteration-method class the residual norm handed to System.solve is that of a residual assembled at the state handed out with it (typestate over enumerated paths; linear-model norms only behind the is_linear refusal).'
              ' Also decided (round 3): System.deconstruct stores the VALUES of a float constraint into the argument (R14.10); no solver front end writes into an array the caller passed, including what deconstruct hands back (R14.9 = R03.7).'
-             ' Also decided: every name loaded in solver.py resolves (R14.11).',
+             ' Also decided: every name loaded in solver.py resolves (R14.11).'
+             ' Round 4: solve_constraints returns initial state + increment, block right-hand sides are reduced with the largest column norm, Direct uses the strict linear solve (R14.12).',
         note='Trusts: CPython ast; name-based identification of residual norms as the operands compared with tol/atol; IEEE semantics of NaN comparisons; '
              'the three gates are the only functions that hand an iterate to the user (confirmed by reading; R14.5 guards the linear side).',
         design='DESIGN.md section 2, C14'),
@@ -40,7 +41,8 @@ CLAIMS = {
              'a casting-checked conversion to the declared kind + a shape test; the raw specification is consumed only through the parser; announced argument tables are computed from the parsed pairs. Monomial._derivative (the derivative of factored polynomials) scatters through the row-major flat index of the argument\'s multi-index (symbolic execution for 1..4 axes). These are necessary for "all spellings '
              'equivalent, wrong shape/dtype rejected"; that replace/linearize/factor commute with evaluation numerically is NOT decided.'
              ' Also decided (round 3): factor() prunes coefficients only where they are exactly zero (R13.8).'
-             ' Also decided: every name loaded in function.py resolves (R13.9; one dead class is a known finding).',
+             ' Also decided: every name loaded in function.py resolves (R13.9; one dead class is a known finding).'
+             ' Round 4: replacement values are made loop-disjoint from the operand before substitution (R13.10, after F43).',
         note='Trusts: CPython ast/symtable; the parameter and local names of _argument_to_array as read today (the rule re-derives them from the signature and the yield).',
         design='DESIGN.md section 2, C13'),
     'C17': dict(
@@ -91,7 +93,8 @@ CLAIMS = {
              'on every enumerated path to the semantic actions divide/power/add/trace/get_element/scope the documented rejections were tested; the bracket table, array operations and default functions are the documented '
              'ones; in v1 the internal _IntermediateError cannot escape any entry point and every opcode tuple that is constructed has a reader branch of compatible arity calling the function it names. These are '
              'necessary for "violations are rejected with the syntax error and never silently evaluated to something else"; that an accepted string evaluates to its index-notation reading is NOT decided.'
-             ' Also decided: every name loaded in expression_v1.py and expression_v2.py resolves (R19.9; one unreachable statement is a known finding).',
+             ' Also decided: every name loaded in expression_v1.py and expression_v2.py resolves (R19.9; one unreachable statement is a known finding).'
+             ' Round 4: v1 index-adding methods refuse indices that are free or summed; a _Length created in a loop depends on the loop counter (R19.10).',
         note='Trusts: CPython ast/symtable; the documented grammar in the module docstrings as the meaning of the tables; name-based call resolution inside expression_v1.',
         design='DESIGN.md section 2, C19'),
     'C01': dict(
@@ -101,7 +104,8 @@ CLAIMS = {
              'fixed-point driver keeps its shape/dtype assertion, loop detection and memoisation. A mismatch is an exception or a transposed result the moment that pair of node kinds meets at depth >= 3, so the clauses are '
              'necessary; termination and value preservation of the ~20 rules per class are NOT decided - no static argument in reach bounds the values over the unbounded term algebra. Also decided (R01.5): binary swap rules that merge two nodes equate the control operand they keep (Choose.index, Inflate.dofmap, LoopSum.index) and a foreign operand enters a loop body only if it is independent of that loop index (capture avoidance); (R01.6) the iszero/isunit guards of rewrite rules test operands that simplification can decide (a guard over `a % b` is dead because Mod never folds constants). Also: independence tests that license moving parts out of a loop are universal; rewrites fire on certain, not merely possible, equality of run-time lengths; the integer ranges that license integer rewrites are sound for the elementary and index-producing nodes (= C06 R06.4).'
              ' Also decided (round 3): a Zeros shortcut for a reduction whose neutral element is 1 (product, determinant) decides the empty axis first (R01.9).'
-             ' Also decided: a constant integer vector is rewritten to a Range only under a guard that proves unit steps (R01.10); operand multisets of Multiply/Add are never split by a membership filter (R01.11).',
+             ' Also decided: a constant integer vector is rewritten to a Range only under a guard that proves unit steps (R01.10); operand multisets of Multiply/Add are never split by a membership filter (R01.11).'
+             ' Round 4: operand slices spread into a rebuilt node tile the operand list (R01.12); the integer transfer functions that license rewrites are sound (R01.8: interpreted for all combinations of small ranges).',
         note='Trusts: CPython ast; name-based MRO of the class model; the table of public-vs-protocol helper pairs confirmed by reading.',
         design='DESIGN.md section 2, C01'),
     'C04': dict(
@@ -110,7 +114,8 @@ CLAIMS = {
              'name promises); the einsum patterns and signs of Multiply, Power, Inverse, Determinant, Product, Legendre, TransformCoords, Polyval and the chain rule equal the matrix-calculus patterns up to renaming; zero '
              'rules, memo and shape assertion of the driver; linear structural nodes act on the right axis of the derivative. A wrong table entry is a wrong Jacobian for every input, also where the suite\'s symmetric test '
              'matrices hide it; chain-rule plumbing through loops/Custom/user operations and numerical accuracy are NOT decided. Terms of one product/power rule must be summed in one expression per branch, and derivatives accumulated over arguments must be added, not overwritten; Monomial._derivative scatters through the row-major flat index (symbolic execution). The derivative memo is only handed on by _derivative rules with their own target.'
-             ' Also decided (round 3): only boolean/integer data are treated as non-differentiable (R04.8); a derivative rule with several operands sums all contributions on every returning branch, licensed special cases tabled (R04.9); operands of the tabled einsum terms are compared by what they denote, not by the name of a local.',
+             ' Also decided (round 3): only boolean/integer data are treated as non-differentiable (R04.8); a derivative rule with several operands sums all contributions on every returning branch, licensed special cases tabled (R04.9); operands of the tabled einsum terms are compared by what they denote, not by the name of a local.'
+             ' Round 4: lower() never simplifies; the root-coordinate derivative of a non-square linear map is the left inverse (R04.10).',
         note='Trusts: CPython ast; oracles/calculus.json (textbook calculus); the normal-form algebra is one-sided: an unforeseen but correct spelling (a trig identity) would be reported, accepted alternatives are listed in the oracle.',
         design='DESIGN.md section 2, C04'),
     'C02': dict(
@@ -121,7 +126,8 @@ CLAIMS = {
              '_compile_expression arities match. Each clause is necessary for a faithful translation of every DAG shape (a missing zero fill survives the suite because numpy.empty often returns zero pages); that loop '
              'grouping, block ids, Assemble index transposition and the numpy-specific rewrites compute the right values is NOT decided. Further clauses: every Array-typed constructor field is an announced dependency; dependency edges are recorded before the compiled-cache lookup; shared allocation/lock pairing under parallel compilation; loop nodes decline in-place compilation when the destination is defined later; einsum labels and axis positions are kind-typed and never mixed in the fusion rules. A possibly-assign mode is never forwarded to one term while others are accumulated into the same destination without a zero fill; the constant-cache protocol (first_run dispatch) is checked as in C03.'
              ' Also decided (round 3): the block a statement is emitted into is the body of the innermost `with lock` of the shared arrays it mentions (R02.12 = R16.3).'
-             ' Also decided: Assemble._compile_with_out transposes and reshapes its operand as NumPy combined (advanced + slice) indexing requires, interpreted for all 340 arrangements of up to four range/advanced indices (R02.13).',
+             ' Also decided: Assemble._compile_with_out transposes and reshapes its operand as NumPy combined (advanced + slice) indexing requires, interpreted for all 340 arrangements of up to four range/advanced indices (R02.13).'
+             ' Round 4: a code emitter consults a configuring field of its node on every path or on none (R02.14); slices of one sequence spread into a rebuilt node tile it (R02.15).',
         note='Trusts: CPython ast; the table of owned-storage constructors and view constructors (transpose = full cover, einsum diagonal = partial, slices = loop partition) confirmed by reading.',
         design='DESIGN.md section 2, C02'),
     'C03': dict(
@@ -130,7 +136,8 @@ CLAIMS = {
              'collects exactly the argument-free Array nodes, freezes them read-only, declares them global with first_run, filters the rerun body before the freeze and clears first_run last; isconstant/arguments '
              'overrides are conservative; arguments are ingested by asarray with a shape test; solver.System memo slots hold a matrix only under is_constant_matrix. Violating any of them makes a later call depend on an '
              'earlier one for some call sequence; aliasing of returned arrays through zero-stride views and the memo tables of function.Basis are NOT decided. R03.6 (cached intermediates must be read-only before a view of them can exist) is violated on the pinned commit and reported as known finding F12. R03.7: the solver front ends never store into arrays taken from arguments/constrain (ownership typestate per path); R03.8: the buffer-keyed memo keys arrays by address, strides, shape and element type.'
-             ' Also decided (round 3): cached members of the shared Points singletons hand out frozen arrays and Constant.value is a view, not a copy, of the immutable storage (R03.9); the caller-array typestate follows what System.deconstruct hands back (interprocedural summaries, containers).',
+             ' Also decided (round 3): cached members of the shared Points singletons hand out frozen arrays and Constant.value is a view, not a copy, of the immutable storage (R03.9); the caller-array typestate follows what System.deconstruct hands back (interprocedural summaries, containers).'
+             ' Round 4: functools-memoised functions hand out no writable arrays and types.lru_cache bypasses arguments with any writable base (R03.10).',
         note='Trusts: CPython ast; NumPy semantics of setflags(write=False) and asarray.',
         design='DESIGN.md section 2, C03'),
     'C06': dict(
@@ -139,7 +146,8 @@ CLAIMS = {
              'constants) the path condition implies, by transitive closure with strictness, the inequality that makes the dropped node the identity; the elementary transfer functions equal interval arithmetic; every '
              'compiled field is an announced dependency; isconstant/arguments overrides are conservative. Soundness of the ~25 non-elementary transfer functions, shape/dtype of every node class and function.Array '
              'metadata are NOT decided (they need evaluation of the functions, concretely or symbolically - another technique family). The table of elementary transfer functions includes the index-producing nodes (SearchSorted, ArgSort, Find, Range); announced argument tables of the function-level wrappers are computed from the parsed replacement pairs. Announced integer ranges are computed only from the dependencies of the value; rewrites that keep the announced shape fire on certain equality of run-time lengths only. The shape announced by each function-level _Wrapper(evaluable.X, ..., shape=S) equals the shape property of X behind the point axes (17 sites, labelled-shape interpretation of both expressions).'
-             ' Also decided: every name loaded in evaluable.py resolves in an enclosing scope (R06.10, symtable).',
+             ' Also decided: every name loaded in evaluable.py resolves in an enclosing scope (R06.10, symtable).'
+             ' Round 4: transfer functions of Negative, Absolute, Sign, Minimum, Maximum, Add, Multiply, Mod, FloorDivide, NormDim and Einsum are INTERPRETED for all combinations of small operand ranges and must contain every value (R06.4 transfer-sound); Inflate scales its range by the number of dof map entries unless the map is repetition-free; multi-operand arrays announce the arguments of all operands and InRange guards strictly (R06.11).',
         note='Trusts: CPython ast; the meaning of each dropped node (index in [0,length), a mod b = a, ...); guards written in other algebraic spellings than comparisons of lo/hi terms are not understood and would be reported.',
         design='DESIGN.md section 2, C06'),
     'C05': dict(
@@ -148,7 +156,8 @@ CLAIMS = {
              'the same lengths (reversed) that flattened them, inflates the values over that inverse, that unique() wires sorter/mask/inverse consistently, and that the CSR tuple order (values, rowptr, colidx, ncols) agrees '
              'between evaluable.as_csr, matrix.assemble_csr/assemble_block_csr and function.as_csr. These are what make index tuples unique, sorted and decodable; the index arithmetic of each _assparse override, which is '
              'where values and positions are computed, is NOT decided, except: the flattening and unravel loops of Array.assparse are executed symbolically (row-major, mutually inverse for 1..4 axes), and two clauses added after seeds: the stride vector of Inflate._assparse is row-major (symbolic evaluation), and Multiply._assparse keeps its factor clusters axis-disjoint. _assparse gathers the chunks of every occurrence of the operands (multiset).'
-             ' Also decided (round 3): compress_indices never returns on counts/end points alone (R05.9), numpy.bincount with weights is reached for floating point data only (R05.10), every path with parts to merge passes through the unique() merge (R05.1).',
+             ' Also decided (round 3): compress_indices never returns on counts/end points alone (R05.9), numpy.bincount with weights is reached for floating point data only (R05.10), every path with parts to merge passes through the unique() merge (R05.1).'
+             ' Round 4: the integer-range shortcuts the sparse index arithmetic relies on are licensed by the ranges (R05.11 = R06.1).',
         note='Trusts: CPython ast; anchored on the current shape of Array.assparse (ANALYSIS-ERROR if refactored beyond recognition).',
         design='DESIGN.md section 2, C05'),
     'C07': dict(
@@ -157,7 +166,8 @@ CLAIMS = {
              'as a normal form over the operands (separately for complex operands where the wrapper branches on dtype), the meaning NumPy documents for f; min_dtype/force_dtype realise NumPy\'s result kind class; comparisons '
              'reject complex, logical operations decline non-booleans; the NEP-13/18 hooks consult the table; operators come from NumPy\'s mixin. A wrong table entry is wrong at every point of every sample; broadcasting, '
              'indexing, reshape, einsum, linear algebra and lowering with point axes (the composite implementations) are NOT decided. Also decided: linear-algebra wrappers announce an inexact kind; the dispatch layer never writes into caller-owned arrays; slice bounds are normalised with Python semantics in both layers; dot, matmul and vdot compare the operand shapes before their broadcasting product; every _Transpose is constructed from normalised, permutation-checked axes; shape preconditions that a wrapped evaluable node only asserts (det, inv, eig, eigh, searchsorted) are tested by the wrapping implementation; interp compares the lengths of xp and fp; the subscript loop is checked for joint treatment of index arrays (known finding F20: it applies them one by one); element kinds that a wrapped node only asserts (choose selector, index arrays, det/inv operands) are tested first; NumPy\'s boolean special cases (absolute, contractions, mask subscripts) are honoured. dot, matmul and vdot contract the axis carrying the contracted length of both operands and return NumPy\'s shape for 20 operand-dimension cases (labelled-shape interpretation); transpose, swapaxes, sum, prod, any, all, trace, diagonal and stack deliver NumPy\'s result shape for the 24 oracle calls, and _Transpose.to_end/from_end keep their contract for every axis list of up to four axes (bounded interpretation); build-time divisions by axis lengths exclude zero first.'
-             ' Also decided (round 3): numpy.stack compares member shapes and does not broadcast (R07.7), diagonal/trace/moveaxis keep the order of their axis arguments (R07.8), the Zeros shortcut of Product answers 1 over an empty axis (R07.16).',
+             ' Also decided (round 3): numpy.stack compares member shapes and does not broadcast (R07.7), diagonal/trace/moveaxis keep the order of their axis arguments (R07.8), the Zeros shortcut of Product answers 1 over an empty axis (R07.16).'
+             ' Round 4: numpy.cross axis overrides all three axis arguments, numeric.inv visits every matrix of a batch, slice.indices components are all used (R07.17); constant-to-Range recognition proves unit steps (R07.18).',
         note='Trusts: CPython ast; oracles/numpy_api.json (documented NumPy semantics and result kinds); the normal-form algebra (one-sided: unforeseen correct spellings would be reported).',
         design='DESIGN.md section 2, C07'),
     'C09': dict(
@@ -167,7 +177,8 @@ CLAIMS = {
              'sample either implements the four accessors or integrates by delegation. Disagreement between siblings makes integrate != sum(w f) for nested samples; Gauss tables, exactness degrees, point containment and '
              'trimmed mosaics are numerical tables and are NOT decided. Also decided: a composite sample never hands its raw element index to a component accessor, and transformed points scale weights by the absolute determinant. TensorPoints enumerates coordinates, weights and triangulation with the same slow factor; getpoints changes the requested degree only under the bezier scheme test.'
              ' Also decided (round 3): take_elements and _offsets never return on counts alone (R09.8); a per-direction degree tuple is reduced to a total degree by its sum (R09.6).'
-             ' Also decided: every name loaded in sample.py, points.py, pointsseq.py and element.py resolves (R09.9).',
+             ' Also decided: every name loaded in sample.py, points.py, pointsseq.py and element.py resolves (R09.9).'
+             ' Round 4: slice.indices components all used, _Zip.getindex reads the stored point numbers, composite scheme strings are split at the first * (interpreted) (R09.10).',
         note='Trusts: CPython ast; the member names of sample._Mul/_Add/_Integral as read today.',
         design='DESIGN.md section 2, C09'),
 }
